@@ -638,6 +638,95 @@ static void unit_json(uint64_t u)
   vf::count("cases", cases);
 }
 
+// ---- JSON handles (smt/json): every sequence of <= 4 handle operations on two handles ---------------------------
+// ops: 0 a = parse(D1)   1 a = b   2 b = a   3 a = a->get("k")   4 b = a->get("k")   5 a = b->get("k")   6 b = b->get("k")
+//      7 a = a            8 json c(a) (copy-construct and destroy)
+// after the sequence both handles are printed; the oracle is the sanitizer (dbg build) / a crash (rel build)
+static const int N_JOPS = 9;
+static void json_api_case(const std::vector<int> &ops, const std::string &txt)
+{
+  static const char *D1 = "{\"k\": {\"k\": {\"k\": 1, \"m\": [1, 2]}, \"m\": \"s\"}, \"m\": [true, null]}";
+  static const char *D2 = "{\"k\": {\"k\": [3]}, \"n\": 2.5}";
+  std::stringstream s1(D1), s2(D2);
+  smt::json a = smt::json::from_json(s1), b = smt::json::from_json(s2);
+  for (int op : ops)
+    switch (op)
+    {
+    case 0:
+    {
+      std::stringstream s3(D1);
+      a = smt::json::from_json(s3);
+      break;
+    }
+    case 1:
+      a = b;
+      break;
+    case 2:
+      b = a;
+      break;
+    case 3:
+      if (a->has("k"))
+        a = a->get("k");
+      break;
+    case 4:
+      if (a->has("k"))
+        b = a->get("k");
+      break;
+    case 5:
+      if (b->has("k"))
+        a = b->get("k");
+      break;
+    case 6:
+      if (b->has("k"))
+        b = b->get("k");
+      break;
+    case 7:
+      a = a;
+      break;
+    case 8:
+    {
+      smt::json c(a);
+      std::stringstream os;
+      c.to_json(os);
+      break;
+    }
+    }
+  std::stringstream os;
+  a.to_json(os);
+  b.to_json(os);
+  vf::count(os.str().empty() ? "rejected" : "accepted");
+  (void)txt;
+}
+static void unit_jsonapi(uint64_t u)
+{
+  uint64_t cases = 0;
+  for (int len = 1; len <= g_len; ++len)
+  {
+    std::vector<int> ix(len, 0);
+    ix[0] = (int)u;
+    while (true)
+    {
+      std::string txt = "jsonapi";
+      for (int x : ix)
+        txt += " " + std::to_string(x);
+      if (vf::begin_case(txt))
+      {
+        ++cases;
+        json_api_case(ix, txt);
+        vf::end_case();
+        if ((cases & 0xff) == 5)
+          vf::sample(txt);
+      }
+      int p = len - 1;
+      while (p >= 1 && ++ix[p] == N_JOPS)
+        ix[p--] = 0;
+      if (p < 1)
+        break;
+    }
+  }
+  vf::count("cases", cases);
+}
+
 static std::vector<std::string> g_files;
 static void list_files(const std::string &dir)
 {
@@ -1144,6 +1233,15 @@ int main(int argc, char **argv)
       read_text(unprintable(rest), c);
     else if (kind == "json")
       read_json(unprintable(rest), c);
+    else if (kind == "jsonapi")
+    {
+      std::vector<int> ops;
+      std::stringstream is(rest);
+      int x;
+      while (is >> x)
+        ops.push_back(x);
+      json_api_case(ops, c);
+    }
     else if (kind == "prefix")
     {
       size_t sp2 = rest.rfind(' ');
@@ -1193,6 +1291,14 @@ int main(int argc, char **argv)
     opt.rlimit_as_mb = 8192;
     opt.crash_key = [](uint64_t, const std::string &, const std::string &what)
     { return "C16:parser:" + std::string(what == "hang" ? "hang" : "abort") + "-on-valid-program"; };
+  }
+  else if (mode == "jsonapi")
+  {
+    g_len = th ? 5 : 4;
+    n_units = N_JOPS;
+    fn = unit_jsonapi;
+    opt.crash_key = [](uint64_t, const std::string &, const std::string &what)
+    { return "C18:json:" + std::string(what == "hang" ? "hang" : "abort") + ":handle-operations"; };
   }
   else if (mode == "json")
   {
